@@ -240,6 +240,7 @@ class League:
 
     def __init__(self, cfg, model=None):
         self.cfg = cfg
+        self.lib = None  # the import of the library this league's process uses (None = main)
         self.model = model if model is not None else build_model(cfg)
         # the model object the SERVICE uses to build rating objects (join, re-seed, restore).
         # By default the same object; the C14/C15 driver gives the service a model object of
